@@ -353,8 +353,8 @@ func init() {
 			if !anySym(a[0], a[1]) {
 				return strings.HasPrefix(a[0].(string), a[1].(string))
 			}
-			if _, ok := a[0].(decStr); ok {
-				panic(engineError{"decimal string of a symbolic integer inspected (HasPrefix)"})
+			if d, ok := a[0].(decStr); ok {
+				a[0] = fr.i.forceStr(d, "HasPrefix")
 			}
 			s, p := strCells(a[0]), strCells(a[1])
 			if len(p) > len(s) {
@@ -474,7 +474,7 @@ func init() {
 		// ---- strconv
 		"strconv.Itoa": func(fr *frame, a []value) value {
 			if s, ok := a[0].(sym); ok {
-				return decStr{s}
+				return decStr{s, fr.i}
 			}
 			return strconv.Itoa(a[0].(int))
 		},
@@ -522,14 +522,34 @@ func init() {
 			return fr.i.sprintf(fr.i.conc(a[0]).(string), a[1].([]value))
 		},
 		"fmt.Errorf": func(fr *frame, a []value) value {
-			return fr.i.mkError(fr.i.sprintf(fr.i.conc(a[0]).(string), a[1].([]value)))
+			format := fr.i.conc(a[0]).(string)
+			args := a[1].([]value)
+			// %w: the result wraps the operand (fmt.wrapError; one %w only)
+			if k := strings.Index(format, "%w"); k >= 0 && strings.Count(format, "%w") == 1 {
+				n := 0
+				for p := 0; p < k; p++ {
+					if format[p] == '%' {
+						if p+1 < len(format) && format[p+1] == '%' {
+							p++
+							continue
+						}
+						n++
+					}
+				}
+				if n < len(args) {
+					if w, ok := args[n].(iface); ok && w.t != nil && fr.i.methodByName(w.t, "Error") != nil {
+						msg := fr.i.sprintf(strings.Replace(format, "%w", "%v", 1), args)
+						if wt := fr.i.prog.ImportedPackage("fmt").Type("wrapError"); wt != nil {
+							var cell value = structure{msg, w}
+							return iface{types.NewPointer(wt.Type()), &cell}
+						}
+					}
+				}
+			}
+			return fr.i.mkError(fr.i.sprintf(strings.ReplaceAll(format, "%w", "%v"), args))
 		},
 		"fmt.Sprint": func(fr *frame, a []value) value {
-			var b strings.Builder
-			for _, x := range a[0].([]value) {
-				b.WriteString(fr.i.fmtArg('v', x))
-			}
-			return b.String()
+			return fr.i.sprintArgs(a[0].([]value), false)
 		},
 		"fmt.Printf": func(fr *frame, a []value) value {
 			panic(engineError{"fmt.Printf reached (yyDebug?)"})
@@ -622,8 +642,21 @@ func (i *interpreter) sprintf(format string, args []value) string {
 			b.WriteByte(c)
 			continue
 		}
-		p++
-		verb := format[p]
+		// %[flags][width][.precision]verb
+		q := p + 1
+		for q < len(format) && strings.IndexByte("+-# 0", format[q]) >= 0 {
+			q++
+		}
+		for q < len(format) && (format[q] >= '0' && format[q] <= '9' || format[q] == '.') {
+			q++
+		}
+		if q >= len(format) {
+			b.WriteString("%!(NOVERB)")
+			break
+		}
+		spec := format[p+1 : q]
+		verb := format[q]
+		p = q
 		if verb == '%' {
 			b.WriteByte('%')
 			continue
@@ -632,10 +665,48 @@ func (i *interpreter) sprintf(format string, args []value) string {
 			b.WriteString("%!" + string(verb) + "(MISSING)")
 			continue
 		}
-		b.WriteString(i.fmtArg(verb, args[n]))
+		b.WriteString(i.fmtArgSpec(spec, verb, args[n]))
 		n++
 	}
+	if n < len(args) {
+		b.WriteString("%!(EXTRA ")
+		for k := n; k < len(args); k++ {
+			if k > n {
+				b.WriteString(", ")
+			}
+			if t := args[k].(iface).t; t != nil {
+				b.WriteString(t.String())
+			} else {
+				b.WriteString("<nil>")
+			}
+			b.WriteString("=" + i.fmtArg('v', args[k]))
+		}
+		b.WriteString(")")
+	}
 	return b.String()
+}
+
+func (i *interpreter) fmtArgSpec(spec string, verb byte, arg value) string {
+	if spec == "" {
+		return i.fmtArg(verb, arg)
+	}
+	itf, _ := arg.(iface)
+	if itf.t != nil {
+		switch x := i.conc(itf.v).(type) {
+		case string, int, int8, int16, int32, int64, uint, uint8, uint16, uint32, uint64, uintptr, bool:
+			return fmt.Sprintf("%"+spec+string(verb), x)
+		}
+	}
+	if spec == "+" && verb == 'v' && itf.t != nil {
+		if i.methodByName(itf.t, "Error") == nil && i.methodByName(itf.t, "String") == nil {
+			return i.fmtComposite(itf.t, itf.v, 'V', 0) // 'V': %+v
+		}
+		return i.fmtArg('v', arg)
+	}
+	if verb == 's' || verb == 'v' || verb == 'q' {
+		return fmt.Sprintf("%"+spec+"s", i.fmtArg(verb, arg))
+	}
+	return i.fmtArg(verb, arg)
 }
 
 func (i *interpreter) fmtArg(verb byte, arg value) string {
@@ -665,7 +736,82 @@ func (i *interpreter) fmtArg(verb byte, arg value) string {
 			}
 		}
 	}
+	if verb == 'v' || verb == 's' || verb == 'd' {
+		return i.fmtComposite(itf.t, itf.v, verb, 0)
+	}
 	return toString(v)
+}
+
+// fmtComposite renders slices, arrays, maps, structs and pointers to them as
+// fmt's %v does (elements are concretised).
+func (i *interpreter) fmtComposite(t types.Type, v value, verb byte, depth int) string {
+	if depth > 6 {
+		return "..."
+	}
+	elem := func(et types.Type, ev value) string {
+		av := iface{et, ev}
+		if _, isI := et.Underlying().(*types.Interface); isI {
+			av, _ = ev.(iface)
+		}
+		if verb == 'V' {
+			return i.fmtArgSpec("+", 'v', av)
+		}
+		return i.fmtArg(verb, av)
+	}
+	switch u := t.Underlying().(type) {
+	case *types.Slice:
+		xs, _ := v.([]value)
+		if b, ok := u.Elem().Underlying().(*types.Basic); ok && b.Kind() == types.Uint8 && verb == 's' {
+			return i.conc(mkStr(xs)).(string)
+		}
+		parts := make([]string, len(xs))
+		for k, x := range xs {
+			parts[k] = elem(u.Elem(), x)
+		}
+		return "[" + strings.Join(parts, " ") + "]"
+	case *types.Array:
+		xs, _ := v.(array)
+		parts := make([]string, len(xs))
+		for k, x := range xs {
+			parts[k] = elem(u.Elem(), x)
+		}
+		return "[" + strings.Join(parts, " ") + "]"
+	case *types.Struct:
+		xs, _ := v.(structure)
+		parts := make([]string, len(xs))
+		for k, x := range xs {
+			parts[k] = elem(u.Field(k).Type(), x)
+			if verb == 'V' {
+				parts[k] = u.Field(k).Name() + ":" + parts[k]
+			}
+		}
+		return "{" + strings.Join(parts, " ") + "}"
+	case *types.Map:
+		it := rangeIter(i, v, t)
+		var parts []string
+		for {
+			kv := it.next() // (ok, key, value)
+			if !kv[0].(bool) {
+				break
+			}
+			parts = append(parts, elem(u.Key(), kv[1])+":"+elem(u.Elem(), kv[2]))
+		}
+		sort.Strings(parts) // fmt prints maps in key order (keys of one basic type)
+		return "map[" + strings.Join(parts, " ") + "]"
+	case *types.Pointer:
+		p, _ := v.(*value)
+		if p == nil {
+			return "<nil>"
+		}
+		switch u.Elem().Underlying().(type) {
+		case *types.Struct, *types.Array, *types.Slice, *types.Map:
+			if depth == 0 {
+				return "&" + i.fmtComposite(u.Elem(), *p, verb, depth+1)
+			}
+		}
+		return "0xc000000000"
+	}
+	return toString(i.conc(v))
 }
 
 func (i *interpreter) methodByName(t types.Type, name string) *ssa.Function {
